@@ -84,14 +84,19 @@ def add_twin(rng, spec, variants):
         return None
     slug = gen.slug_of(c, spec['module'])
     ref = v['ns'] + '::' + slug
-    twin = {'name': c['name'], 'group': c['group'], 'base': 'Task', 'params': [{'name': 'tw'}], 'inputs': [{'by': 'name', 'ref': ref}],
+    tname, tgroup = c['name'], c['group']
+    if '::' not in v['ns'] and rng.random() < 0.5:
+        # ... or a task named exactly like the NAMESPACE its lazily computed input lives in (`n` computing `n::g:x`): the names of the two
+        # tasks' loggers must not be related either
+        tname, tgroup = v['ns'], ''
+    twin = {'name': tname, 'group': tgroup, 'base': 'Task', 'params': [{'name': 'tw'}], 'inputs': [{'by': 'name', 'ref': ref}],
             'kind': 'json', 'run_args': ['tw'], 'pull': [ref], 'in_kinds': {ref: c['kind']}}
     tid = f'K{len(spec["classes"])}'
     spec['classes'][tid] = twin
     main = spec['files']['main_' + v['file']]
     main['tasks'] = [tid]
     main['tw'] = rng.randrange(100)
-    return slug
+    return gen.slug_of(twin, spec['module'])
 
 
 def run(ctx):
